@@ -17,7 +17,13 @@ Coq (`vm_compute` on coq/gen/C15/*.v):
     observation; the (steps taken, time) pair at every loop check is compared
     with the model's trace exactly (also for EnsembleSampler.run_for, where one step
     stores n_walkers samples);
-  * ChainPool with real worker processes against deep copies advanced serially.
+  * ChainPool with real worker processes against deep copies advanced serially;
+  * INTERRUPTED calls (Properties/C15Steps.v about Model/AdvanceSteps.v; lib/c15steps.py): real
+    Gibbs / Metropolis / PCA / HMC / ensemble samplers are driven through histories of take_step /
+    advance calls in which chosen evaluations of the posterior or its gradient raise (every
+    evaluation of a step in turn, later steps of an advance, the grouped part and the remainder of
+    advance(m > 100), two interruptions in one history); the length counters as seen from inside
+    EVERY evaluation and after every call (returned or raised) are compared with the model.
 On a disagreement the property itself (counters) is evaluated on the implementation.
 """
 from __future__ import annotations
@@ -33,6 +39,7 @@ from fractions import Fraction
 import numpy as np
 
 from lib import common as C
+from lib import c15steps as IS
 from lib.scripted import ScriptedRNG
 
 from inference.mcmc.base import MarkovChain                      # noqa: E402
@@ -45,6 +52,11 @@ THEOREMS = ["C15_advance_adds_m", "C15_advance_is_m_steps", "C15_any_call_sequen
             "C15_run_for_progress", "C15_run_for_fuel_irrelevant",
             "C15_run_for_stalls_refuted", "C15_run_for_idles_refuted",
             "C15_ensemble_advance0_refuted"]
+
+STEP_THEOREMS = ["C15_interrupted_lengths_agree", "C15_interrupted_call_adds_whole_steps",
+                 "C15_evaluations_see_agreeing_lengths", "C15_ensemble_iterations_counted",
+                 "C15_nonatomic_step_same_uninterrupted", "C15_nonatomic_step_refuted",
+                 "C15_ensemble_iterations_outrun_samples"]
 
 HEADER = """From Coq Require Import List ZArith QArith.
 From IT Require Import Model.Advance.
@@ -429,11 +441,141 @@ def gen_run_for(r, tier):
     return cases
 
 
+# ---------------------------------------------------------------- interrupted call histories
+def interrupted_histories(rep, tier):
+    """Histories of take_step / advance calls with evaluations of the posterior that raise.
+    Returns the number of calls validated against the model."""
+    r = C.rng_for(PROP, "interrupted")
+    cases = []          # dict(cfg, drv, calls, init, records, bad_at, bad)
+    for cfg, drv, calls, tag in IS.plan(r, tier):
+        name = IS.NAME[cfg["kind"]]
+        if calls is None:
+            rep.violation(f"C15/interrupted/{name}/history-exception", f"{name}: {tag}",
+                          {"theorem_or_correspondence": "Model.AdvanceSteps (histories of calls)",
+                           "case": {"config": IS.SC.describe(cfg)}}, False)
+            continue
+        try:
+            init, records, resolved = drv.drive(calls)
+        except IS.Unsteady as e:
+            rep.violation(f"C15/interrupted/{name}/history-exception", f"{name}: {e}",
+                          {"theorem_or_correspondence": "Model.AdvanceSteps (histories of calls)",
+                           "case": {"config": IS.SC.describe(cfg), "calls": calls}}, False)
+            continue
+        bad_at, bad = IS.oracle(cfg["kind"], IS.per_step_of(cfg), init, records)
+        cases.append({"cfg": cfg, "drv": drv, "calls": resolved, "init": init, "records": records,
+                      "bad_at": bad_at, "bad": bad, "tag": tag})
+        rep.count(f"interrupted:sampler={name}")
+        rep.count(f"interrupted:{tag}")
+        for rc in records:
+            if rc["call"]["crash"] and not rc["returned"]:
+                rep.count(f"interrupted:exception={rc['call']['exc']}")
+                rep.count("interrupted:calls cut short")
+        rep.count("interrupted:calls", len(records))
+        rep.case(("interrupted", name, cfg["rng_seed"], [sorted(c.items()) for c in resolved]))
+    for cs in cases:
+        if len(rep.samples) < 6 and cs["cfg"]["n"] >= 2 and cs["cfg"]["kind"] == "gibbs" and cs["tag"] == "take_step:inside":
+            rep.sample({"sampler": IS.NAME[cs["cfg"]["kind"]], "n_parameters": cs["cfg"]["n"],
+                        "history": [IS.describe_call(c) for c in cs["calls"]],
+                        "counters_seen_by_the_evaluations_of_the_interrupted_call":
+                            [rc["seen"] for rc in cs["records"] if not rc["returned"]][:1],
+                        "counters_after_each_call": [rc["after"] for rc in cs["records"]]}, limit=6)
+            break
+
+    # correspondence inside Coq
+    terms = [IS.coq_icase(cs["cfg"], cs["init"], cs["records"]) for cs in cases]
+    files, spans, cur, cur_sz, start = [], [], [], 0, 0
+    for ci, txt in enumerate(terms):
+        cur.append(txt)
+        cur_sz += len(txt)
+        if cur_sz > 200_000 or ci == len(terms) - 1:
+            body = "Definition icases : list icase :=\n " + C.clist(cur, ";\n ") + "."
+            files.append(C.write_case_file(PROP, f"interrupted_{len(files)}", IS.HEADER, body,
+                                           ["failing check_icase icases 0"]))
+            spans.append((start, len(cur)))
+            cur, cur_sz, start = [], 0, ci + 1
+    n_checked, failing = 0, []
+    for p, (st0, cnt), (ok, res, log) in zip(files, spans, C.run_case_files(files, jobs=14)):
+        if not ok or 0 not in res:
+            rep.obligation(False)
+            rep.violation("C15/correspondence-run", f"case file {p.name} did not evaluate",
+                          {"theorem_or_correspondence": f"correspondence file {p.name}", "log": log}, False)
+            continue
+        rep.obligation(True)
+        n_checked += sum(len(cases[ci]["records"]) for ci in range(st0, st0 + cnt))
+        failing += [st0 + j for j in res[0]]
+    rep.coverage["interrupted_call_histories"] = len(cases)
+    rep.coverage["interrupted_calls_validated_against_impl"] = n_checked
+    rep.coverage["interrupted_call_disagreements"] = len(failing)
+
+    def replay_of(cs, upto):
+        c = {"interrupted_history": True, "sampler": IS.NAME[cs["cfg"]["kind"]], "n_parameters": cs["cfg"]["n"],
+             "config": IS.SC.describe(cs["cfg"]), "calls": cs["calls"][:upto + 1],
+             "history": [IS.describe_call(x) for x in cs["calls"][:upto + 1]],
+             "counters_after_each_call (stored values per list, log-probabilities, chain_length, n_iterations)":
+                 [rc["after"] for rc in cs["records"][:upto + 1]]}
+        return c
+
+    def shrink(cs):
+        """a shorter history of the same configuration that still fails: a single take_step, then the failing
+        call alone, each at every crash point; else the history as it was generated, cut after the failing call"""
+        fc = cs["calls"][cs["bad_at"]]
+        if not fc["crash"] or (cs["bad_at"] == 0 and fc["entry"] == "take_step"):
+            return cs
+        cands = [dict(fc, entry="take_step", m=1)] + ([fc] if cs["bad_at"] > 0 and fc["entry"] != "take_step" else [])
+        try:
+            for cand in cands:
+                es = cs["drv"].scout([], IS.n_steps(cand))
+                for k in range(1, min(sum(es), 400) + 1):
+                    init, records, resolved = cs["drv"].drive([dict(cand, crash=k)])
+                    at, bad = IS.oracle(cs["cfg"]["kind"], IS.per_step_of(cs["cfg"]), init, records)
+                    if bad:
+                        return dict(cs, calls=resolved, init=init, records=records, bad_at=at, bad=bad)
+        except Exception:        # noqa: BLE001 - shrinking is best effort
+            pass
+        return cs
+
+    # failing-input search: the counters say whether the property fails
+    seen = set()
+    order = sorted(range(len(cases)), key=lambda ci: (ci not in failing, len(terms[ci])))
+    for ci in order:
+        cs = cases[ci]
+        name = IS.NAME[cs["cfg"]["kind"]]
+        if cs["bad"]:
+            key = f"C15/interrupted/{name}"
+            if key in seen:
+                continue
+            seen.add(key)
+            cs = shrink(cs)
+            rep.violation(key, f"{name} ({cs['cfg']['n']} parameters): " + "; ".join(cs["bad"][:2]),
+                          {"case": replay_of(cs, cs["bad_at"])}, True)
+    for ci in failing:
+        cs = cases[ci]
+        name = IS.NAME[cs["cfg"]["kind"]]
+        if f"C15/interrupted/{name}" in seen or f"C15/interrupted/{name}/correspondence" in seen:
+            continue
+        seen.add(f"C15/interrupted/{name}/correspondence")
+        rep.violation(f"C15/interrupted/{name}/correspondence",
+                      f"{name}: the length counters seen from inside the evaluations of a call, or after it, are not "
+                      f"those of the model (which stores nothing before the last evaluation of a step has returned), "
+                      f"but the counters were not seen to disagree after a call",
+                      {"theorem_or_correspondence": "Model.AdvanceSteps.icase_failures (C15_evaluations_see_agreeing_lengths)",
+                       "case": replay_of(cs, len(cs["calls"]) - 1)}, False)
+    return n_checked
+
+
 # ---------------------------------------------------------------- the run
 def run(rep: C.Report, tier: str) -> int:
     r = C.rng_for(PROP, "cases")
     C.clean_gen(PROP)
     C.prove_and_audit(rep, PROP, THEOREMS)
+    try:      # histories with interrupted calls (Properties/C15Steps.v)
+        _a = C.coq_audit(PROP + "_steps", STEP_THEOREMS, "IT.Properties.C15Steps")
+        rep.obligation(True, len(STEP_THEOREMS))
+        rep.coverage["steps_audit"] = _a
+    except C.ProofFailure as _e:
+        rep.obligation(False, len(STEP_THEOREMS))
+        rep.violation("C15/proof", f"proof obligation no longer checks: {_e.what}",
+                      {"theorem_or_correspondence": _e.what, "log": _e.log[-1000:]}, False)
     quick = tier == "quick"
 
     coq_cases = []          # (key, description, coq text, oracle result list)
@@ -641,6 +783,8 @@ def run(rep: C.Report, tier: str) -> int:
         n_checked += len(chunk)
         for j in res[0]:
             disagreements.append(chunk[j])
+    # ---- 6. histories with interrupted calls
+    n_checked += interrupted_histories(rep, tier)
     rep.coverage["traces_validated_against_impl"] = n_checked
     rep.coverage["correspondence_disagreements"] = len(disagreements) + len(direct)
 
@@ -672,6 +816,9 @@ def run(rep: C.Report, tier: str) -> int:
         "and int(steps/elapsed) are exact; cases where they are not are dropped and counted",
         "ChainPool: fork start method, pickling of chains as multiprocessing does it",
         "EnsembleSampler.run_for: one take_step stores n_walkers samples (parameter w of the model)",
+        "interrupted calls: user code runs only inside the posterior / its gradient, so an exception can surface only "
+        "there (simulated by raising from a hook inside them: ModelFailure(Exception), FloatingPointError, "
+        "KeyboardInterrupt); the number of evaluations each step makes is measured on an identically built sampler",
     ]
     return rep.finish(
         level="proof",
@@ -682,7 +829,11 @@ def run(rep: C.Report, tier: str) -> int:
              "0..350 and 1000; ensemble: 17(49) advance sequences incl. 0 on fresh samplers, 3-8 walkers; run_for: "
              "45(150) scripted-clock runs, 2^-20 s .. 600 s per step, constant and varying, time() cost 0 .. 5 s, budgets "
              "0 .. days, every fifth on a real chain; ChainPool: 6(18) pools of 2-4 stub / Gibbs / PCA / HMC chains with "
-             "and without display_progress, n in {0,7,100,123,250}; all cases are non-trivial; distinct = distinct inputs")
+             "and without display_progress, n in {0,7,100,123,250}; interrupted calls: per sampler (Gibbs, Metropolis, "
+             "PCA, HMC, ensemble) 3(8) scripted configurations, after 0-3 completed steps every evaluation (<= 10(40)) of "
+             "one take_step raising in turn, 4(9) crash points in later steps of advance(2..3), 2(6) histories of 4-6 calls "
+             "with two interrupted calls, advance(117|203|250) cut short inside the grouped part and inside the "
+             "remainder; each followed by 1-2 more calls; all cases are non-trivial; distinct = distinct inputs")
 
 
 # ---------------------------------------------------------------- replay
@@ -693,7 +844,9 @@ def replay(path):
     if not c:
         print("replay names a broken theorem / correspondence:", rp.get("theorem_or_correspondence"))
         return 1
-    if "ops" in c:
+    if c.get("interrupted_history"):
+        obs, bad = IS.replay_case(c)
+    elif "ops" in c:
         ch = StubChain(c["n0"], display=c.get("display_progress", False)) if c["chain"] == "stub" \
             else make_real(c["chain"], 1)
         with silence():
